@@ -47,6 +47,26 @@ pub fn make_assembler(sc: &Value) -> Result<Assembler, String> {
 }
 
 pub fn compile(sc: &Value) -> Compiled {
+    // a program given as one span of native operations (names of the specification; PUSH takes "PUSH:<decimal>")
+    if let Some(ops) = sc["ops"].as_array() {
+        let mut v = vec![];
+        for o in ops {
+            let name = o.as_str().unwrap_or("");
+            let op = if let Some(imm) = name.strip_prefix("PUSH:") {
+                Some(vm_core::Operation::Push(Felt::new(imm.parse::<u64>().unwrap_or(0))))
+            } else {
+                all_ops().into_iter().find(|(n, _)| *n == name).map(|(_, o)| o)
+            };
+            match op {
+                Some(op) => v.push(op),
+                None => return Compiled { program: None, outcome: json!({"outcome": "asm_err", "msg": format!("unknown operation {name}")}) },
+            }
+        }
+        return match catch(|| Program::new(vm_core::code_blocks::CodeBlock::new_span(v))) {
+            Ok(p) => Compiled { program: Some(p), outcome: Value::Null },
+            Err(m) => Compiled { program: None, outcome: json!({"outcome": "asm_panic", "msg": m}) },
+        };
+    }
     let src = sc["src"].as_str().unwrap_or("").to_string();
     let r = catch(|| make_assembler(sc).and_then(|a| a.compile(&src).map_err(|e| format!("{e:?}"))));
     match r {
